@@ -265,6 +265,8 @@ class Interp:
         self.app_events_seen = set()
         self.fired_rows = set()
         self._ext_cache = {}
+        self.continuations = {}
+        self._ext_info = {}
 
     # -- violations ------------------------------------------------------
     def add_viol(self, kind, detail, site=None):
@@ -527,9 +529,6 @@ class Interp:
                 else:
                     raise AnalysisError("RendezvousConnector._tx called with a non-constant message type "
                                         "(stack %s)" % " > ".join(self.stack[-3:]))
-            if tgt.name == CONNECTOR and meth == "stop":
-                st = st.cp()
-                st[('e', 'rc_stop_pending')] = 'T'
             if tgt.name in OPAQUE_CLASSES:
                 if meth == "stop":
                     st = st.cp()
@@ -538,6 +537,8 @@ class Interp:
             if tgt.name not in CLIENT and tgt.name != CONNECTOR:
                 return [(st, 'U', None)]
             return self.run_method(tgt, meth, st, self.bind(tgt.methods[meth], argvals, kwvals))
+        # an external call.  (a) it may hand a continuation to Twisted; (b) it may stop the ClientService
+        st = self._external_effects(call, st, ctx)
         # tracked collection mutation: self._attr.add(x) / .append(x)
         f = call.func
         if isinstance(f, ast.Attribute) and isinstance(f.value, ast.Attribute) and isinstance(f.value.value, ast.Name) \
@@ -572,6 +573,65 @@ class Interp:
                     st[k] = 'U'
                     return [(st, 'U', None)]
         return [(st, self.ev(call, st, ctx), None)]
+
+    REGISTRARS = ("addCallback", "addBoth", "addErrback", "addCallbacks", "callLater", "deferLater", "eventually",
+                  "callWhenRunning", "callFromThread")
+
+    def _external_effects(self, call, st, ctx):
+        info = self._ext_info.get((id(call), ctx.cls.name))
+        if info is None:
+            f = call.func
+            fname = f.attr if isinstance(f, ast.Attribute) else (f.id if isinstance(f, ast.Name) else None)
+            stops = any(isinstance(n, ast.Attribute) and n.attr == "stopService" for n in ast.walk(call))
+            conts = []
+            if fname in self.REGISTRARS:
+                for a in list(call.args) + [k.value for k in call.keywords]:
+                    if isinstance(a, ast.Lambda):
+                        if any(isinstance(x, ast.Call) and self.resolve(x, ctx)[0] is not None for x in ast.walk(a.body)):
+                            cid = "%s.<lambda@%d>" % (ctx.cls.name, a.lineno)
+                            self.continuations[cid] = (ctx.cls, a)
+                            conts.append(cid)
+                    elif isinstance(a, ast.Attribute) and isinstance(a.value, ast.Name) and a.value.id == "self" \
+                            and (a.attr in ctx.cls.methods or a.attr in ctx.cls.inputs):
+                        cid = "%s.%s" % (ctx.cls.name, a.attr)
+                        self.continuations[cid] = (ctx.cls, a.attr)
+                        conts.append(cid)
+            info = (stops, tuple(conts))
+            self._ext_info[(id(call), ctx.cls.name)] = info
+        stops, conts = info
+        if not stops and not conts:
+            return st
+        # (b) a mention of <connector>.stopService in this call: the connection service is being shut down
+        if stops:
+            if st.get(('a', CONNECTOR, '_stopping')) != C(True) and \
+                    truth(st.get(('a', CONNECTOR, '_have_made_a_successful_connection'), 'U')) == 'T':
+                self.add_viol("reconnect-abandoned", "the connection service is stopped after a connection loss although "
+                              "a connection had been established before and nobody asked to stop",
+                              site="%s:%d" % (ctx.cls.file, call.lineno))
+            st = st.cp()
+            st[('e', 'svc_stopped')] = 'T'
+        # (a) continuations handed to Twisted
+        for cid in conts:
+            st = st.cp()
+            st[('k', cid)] = 'T'
+        return st
+
+    def run_continuation(self, cid, st):
+        cls, what = self.continuations[cid]
+        st = st.cp()
+        st[('k', cid)] = 'F'
+        if isinstance(what, str):
+            fn = cls.inputs.get(what) or cls.methods[what]
+            locs = {a.arg: 'U' for a in fn.args.args[1:]}
+            if what in cls.inputs:
+                return self.fire(cls, what, st, locs)
+            return self.run_method(cls, what, st, locs)
+        locs = {a.arg: 'U' for a in what.args.args}
+        self.stack.append(cid)
+        try:
+            return self.eval_expr(what.body, st, Ctx(cls, locs))
+        finally:
+            self.stack.pop()
 
     def run_method(self, cls, meth, st, locs, is_output=False):
         fn = cls.outputs[meth] if is_output else cls.methods[meth]
@@ -1123,7 +1183,7 @@ class Explorer:
         A = self.I.ALL
         self.RC, self.B, self.In = A[CONNECTOR], A["Boss"], A["Input"]
         # anchors of the environment (fail closed when one vanishes)
-        for m in ("ws_open", "ws_close", "ws_message", "_stopped", "_tx", "stop"):
+        for m in ("ws_open", "ws_close", "ws_message", "_stopped", "_tx", "stop", "_initial_connection_failed"):
             if m not in self.RC.methods:
                 raise AnchorMissing("RendezvousConnector.%s not found" % m)
         for m in ("set_code", "allocate_code", "input_code"):
@@ -1212,12 +1272,15 @@ class Explorer:
             evs.append(("dilation.Send.send", lambda s: self.top(
                 I.fire(A["Send"], "send", s, {"phase": C("dilate-0"), "plaintext": 'T'}))))
         dead = g('rc_dead') == 'T'
-        stopping = g('rc_stop_pending') == 'T'
+        stopping = g('svc_stopped') == 'T' and not dead
         if ws == 'F' and not dead and not stopping:
             evs.append(("ws_open", lambda s: self.top(I.run_method(RC, "ws_open", s, {"proto": "T"}))))
+            # the WebSocket negotiation of a (re)connection attempt fails: onClose without onOpen
+            evs.append(("ws_negotiation_failed", lambda s: self.top(I.run_method(RC, "ws_close", s, {}))))
             if truth(st[('a', CONNECTOR, '_have_made_a_successful_connection')]) == 'F':
+                # ClientService gives up on the very first attempt (failAfterFailures=1)
                 evs.append(("initial_connection_failed",
-                            lambda s: self.top(I.fire(B, "error", self.mark(s, 'rc_dead'), {}))))
+                            lambda s: self.top(I.run_method(RC, "_initial_connection_failed", s, {"f": 'T'}))))
         if ws == 'T' and not stopping:
             evs.append(("ws_close", lambda s: [self.clear_pend(x) for x in self.top(
                 I.run_method(RC, "ws_close", s, {}))]))
@@ -1239,16 +1302,18 @@ class Explorer:
                         evs.append(("srv.message(%s,%s)" % (side[5:], ph), lambda s, side=side, ph=ph: self.server_msg(
                             s, "message", {"side": C(side), "phase": C(ph), "body": 'T'})))
         if stopping:
-            def rc_stopped(s):
-                s = self.unmark(self.mark(s, 'rc_dead'), 'rc_stop_pending')
-                ss = [s]
+            # ClientService.stopService(): the open connection (if any) is closed, then its Deferred fires
+            def service_stopped(s):
+                s = self.mark(s, 'rc_dead')
                 if truth(s[('a', CONNECTOR, '_ws')]) == 'T':
-                    ss = [self.clear_pend(x) for x in self.top(I.run_method(RC, "ws_close", s, {}))]
-                out = []
-                for x in ss:
-                    out.extend(self.top(I.run_method(RC, "_stopped", x, {"res": C(None)})))
-                return out
-            evs.append(("rc_stopped", rc_stopped))
+                    return [self.clear_pend(x) for x in self.top(I.run_method(RC, "ws_close", s, {}))]
+                return [s]
+            evs.append(("service_stopped", service_stopped))
+        # continuations handed to Twisted (Deferred callbacks); those of a stopping service fire once it has stopped
+        if not stopping:
+            for k, v in st.items():
+                if k[0] == 'k' and v == 'T':
+                    evs.append(("deferred:" + k[1], lambda s, cid=k[1]: self.top(I.run_continuation(cid, s))))
         if g('d_stop_pending') == 'T':
             evs.append(("dilator_stopped", lambda s: self.top(I.fire(
                 A["Terminator"], "stoppedD", self.mark(self.unmark(s, 'd_stop_pending'), 'd_stopped'), {}))))
